@@ -75,3 +75,15 @@ Theorem C13_retrieval_no_false_success : forall rounds sleeps t D T,
   cr_ok (retrieval t D T rounds sleeps) = true ->
   exists round, In round rounds /\ Forall (fun c : call => exists d, In (d, Final) (fst c) /\ d <= T) round.
 Proof. exact retrieval_no_false_success. Qed.
+
+(* the converse of "no false success": when the deadline allows, the call does complete - at the first attempt that meets a
+   final reply within the per-attempt timeout, with exactly that many transmissions, at exactly the time the earlier
+   attempts and sleeps add up to (a legal network that loses datagrams does not make a command fail while its context lives) *)
+Theorem C13_completes_when_deadline_allows : forall sess pre sl d post srest t D T,
+  length sl = length pre ->
+  Forall (fun a : attempt_k => is_final (snd a) && (fst a <=? T) = false) pre ->
+  (sess = true -> Forall (fun a : attempt_k => fst a <= T) pre) ->
+  d <= T -> t + spent T pre sl + d < D ->
+  let r := retry_k sess t D T (pre ++ (d, Final) :: post) (sl ++ srest) in
+  cr_ok r = true /\ cr_attempts r = S (length pre) /\ cr_end r = t + spent T pre sl + d.
+Proof. exact retry_k_completes. Qed.
